@@ -261,8 +261,98 @@ pub fn single_script(r: &mut Rng, nlabels: usize) -> (Vec<u64>, Vec<u64>) {
     (case, w.finish())
 }
 
+/// one established stream bridged to a scripted local side at endpoint A (and sometimes at
+/// B too); the peer is a plain application or another bridge
+pub fn bridge_script(r: &mut Rng, nlabels: usize) -> (Vec<u64>, Vec<u64>) {
+    let (ca, ea) = g_cfg(r, "single");
+    let (cb, eb) = g_cfg(r, "single");
+    let mut case = vec![30u64, 1];
+    case.extend(ea);
+    case.extend(eb);
+    let mut w = World::new(&ca, &cb);
+    let both = r.chance(1, 4);
+    let mut prologue: Vec<Vec<u64>> =
+        vec![vec![10, 0, 80, 1, 104], vec![18, 0], vec![18, 1], vec![11, 0, 0], vec![12, 1], vec![30, 0, 0]];
+    if both {
+        prologue.push(vec![30, 1, 0]);
+    }
+    for l in prologue {
+        w.label(&l);
+        case.push(l.len() as u64);
+        case.extend(l);
+    }
+    let nb = if both { 2 } else { 1 };
+    let mut tag = 0u8;
+    for _ in 0..nlabels {
+        let mut cands: Vec<(u32, Vec<u64>)> = Vec::new();
+        for d in 0..2 {
+            if w.link_len(d) > 0 {
+                cands.push((5 + 2 * w.link_len(d).min(4) as u32, vec![18, d as u64]));
+            }
+        }
+        for k in 0..nb as u64 {
+            if w.bridge_live(k as usize) {
+                cands.push((10, vec![31, k]));
+            }
+            tag = tag.wrapping_add(1);
+            let mut l = vec![32, k, 0];
+            let d = g_data(r, tag);
+            lp(&mut l, &d);
+            cands.push((5, l));
+            cands.push((1, vec![32, k, 1]));
+            cands.push((1, vec![32, k, 2]));
+            cands.push((2, vec![32, k, 3, r.pick(&[1u64, 1, 2, 3])]));
+            cands.push((2, vec![32, k, 4]));
+            cands.push((1, vec![32, k, 5]));
+            cands.push((1, vec![32, k, 6]));
+            cands.push((1, vec![32, k, 7]));
+        }
+        if !both && w.stream_alive(1, 0) {
+            tag = tag.wrapping_add(1);
+            let mut l = vec![13, 1, 0];
+            let d = g_data(r, tag);
+            lp(&mut l, &d);
+            cands.push((6, l));
+            cands.push((6, vec![15, 1, 0, r.pick(&[1u64, 2, 8, 8])]));
+            cands.push((1, vec![16, 1, 0]));
+            cands.push((1, vec![17, 1, 0]));
+        }
+        if r.chance(1, 60) {
+            cands.push((1, vec![28, r.below(2), r.below(3)]));
+        }
+        let total: u32 = cands.iter().map(|c| c.0).sum();
+        let mut pick = r.below(u64::from(total)) as u32;
+        let mut chosen = cands[0].1.clone();
+        for (wt, l) in cands {
+            if pick < wt {
+                chosen = l;
+                break;
+            }
+            pick -= wt;
+        }
+        {
+            let mut cur = crate::CURRENT.lock().unwrap();
+            *cur = case.clone();
+            cur.push(chosen.len() as u64);
+            cur.extend(&chosen);
+        }
+        crate::PROGRESS.fetch_add(1, std::sync::atomic::Ordering::SeqCst);
+        w.label(&chosen);
+        case.push(chosen.len() as u64);
+        case.extend(chosen);
+    }
+    (case, w.finish())
+}
+
 pub fn generate(a: &Args, out: &mut Out) {
     let mut r = Rng(a.seed ^ 0x30);
+    if a.mode.contains("bridge") {
+        for k in 0..a.n {
+            let (case, res) = bridge_script(&mut r, if k % 4 == 0 { 100 } else { 40 });
+            out.emit(&case, &res);
+        }
+        return;
+    }
     if a.mode.contains("single") {
         for k in 0..a.n {
             let (case, res) = single_script(&mut r, if k % 4 == 0 { 120 } else { 40 });
